@@ -122,6 +122,9 @@ type MapV struct {
 // SeqV models an iter.Seq[string] returned by a modelled library function.
 type SeqV struct{ Items []AV }
 
+// ReplacerV is a strings.Replacer built from constant pairs.
+type ReplacerV struct{ R *strings.Replacer }
+
 // BufV models a bytes.Buffer / strings.Builder.
 type BufV struct {
 	S []byte
@@ -2199,6 +2202,20 @@ func (ip *Interp) model(fn *ssa.Function, args []AV) (res AV, ok bool) {
 		return kStr(strings.ToUpper(s(0))), true
 	case "strings.ToLower":
 		return kStr(strings.ToLower(s(0))), true
+	case "strings.NewReplacer":
+		// the library's own replacer over the constant pairs (trusted library)
+		pairs := avStrings(args[0])
+		if len(pairs)%2 != 0 {
+			rtPanic("strings.NewReplacer: odd argument count")
+		}
+		return &Ptr{O: ip.newObj(&ReplacerV{R: strings.NewReplacer(pairs...)})}, true
+	case "(*strings.Replacer).Replace":
+		if p, ok := args[0].(*Ptr); ok {
+			if rv, ok := p.peek().(*ReplacerV); ok {
+				return kStr(rv.R.Replace(s(1))), true
+			}
+		}
+		ood("strings.Replacer receiver")
 	case "strings.Repeat":
 		if n(1) < 0 || n(1) > 1<<12 {
 			rtPanic("strings.Repeat count")
